@@ -595,5 +595,46 @@ for _h in (False, True):
             1e-2, 4), dict(hermitian=h, rel=r_)))
 
 
+# grid functions: every option as scalar / list / ndarray, single point and batch
+for _kind in ('uni', 'cheb'):
+    for _form in ('list', 'array'):
+        def _opts(g, form=_form):
+            a, b, n = [-1., 0., -2.], [1., 2., 3.], [5, 7, 4]
+            if form == 'array':
+                return np.array(a), np.array(b), np.array(n)
+            return a, b, n
+        C('poi_to_ind', f'{_kind}-single-opts-{_form}', lambda g, k=_kind,
+            o=_opts: ((np.array([0.3, 1.2, 0.]),) + o(g) + (k,), {}))
+        C('poi_to_ind', f'{_kind}-single-list-opts-{_form}', lambda g, k=_kind,
+            o=_opts: (([0.3, 1.2, 0.],) + o(g), dict(kind=k)))
+        C('ind_to_poi', f'{_kind}-single-opts-{_form}', lambda g, k=_kind,
+            o=_opts: ((np.array([2, 6, 1]),) + o(g) + (k,), {}))
+        C('ind_to_poi', f'{_kind}-batch-opts-{_form}', lambda g, k=_kind,
+            o=_opts: ((idx(g, [5, 7, 4], 6),) + o(g) + (k,), {}))
+        C('poi_scale', f'{_kind}-single-opts-{_form}', lambda g, k=_kind,
+            o=_opts: ((np.array([0.3, 1.2, 0.]),) + o(g)[:2] + (k,), {}))
+C('grid_prep_opts', 'int-array-reps', lambda g: ((None, None, np.array([4, 5]),
+    2, 3), {}), passthrough=True)
+C('func_get', 'single-array-box', lambda g: ((np.array([0.1, 1.5]),
+    tt(g, [4, 5]), np.array([-1., 0.]), np.array([2., 2.])), {}))
+C('func_sum', 'array-box', lambda g: ((tt(g, [4, 5]), np.array([-1., 0.]),
+    np.array([1., 2.])), {}))
+C('sample_rand_poi', 'single-sample', lambda g: ((np.array([-1., 0.]),
+    np.array([1., 2.]), 1), dict(seed=seed_kw(g))), seeded=True)
+
+
+# sample_square: the rarely taken restart path (too few distinct rows drawn)
+def _peaked(g):
+    Y = [np.array([[[1.], [0.3]]]), np.array([[[1.], [0.3]]]),
+        np.array([[[1.], [0.3]]])]
+    return [G * g.uniform(0.9, 1.1) for G in Y]
+
+
+C('sample_square', 'unique-restart', lambda g: ((_peaked(g), 7), dict(
+    seed=seed_kw(g))), seeded=True)
+C('sample_square', 'unique-all-entries', lambda g: ((_peaked(g), 8, True), dict(
+    seed=seed_kw(g))), seeded=True)
+
+
 def names():
     return sorted({c.name for c in CALLS})
